@@ -87,8 +87,10 @@
                        the strict test of that class is sem_c02_all)
      F8c-ambiguous     a constant s equals a 0-ary predicate and a constant s__s exists besides (known finding
                        F8c; otherwise the regular op reads s__s as s and still tests the rest)
-     output-nowhere    a declared output predicate occurs neither in the specification nor in the program
-                       (/repo 18b2e85 gives it no completed definition; the F17 part decides that class)
+     (no class for a declared output predicate that occurs neither in the specification nor in the
+      program: since /repo 18b2e85 it gets no completed definition and is outside the vocabulary of
+      the program side - Proofs/C02Full.v ext_voc = program predicates, inputs, OCCURRING outputs -
+      so T is read on the occurring outputs only and the case is evaluated like any other)
      window            more than 4 numerals or 4 symbols, or the quantifier cost bound
      evaluated         everything else *)
 open Sexp
@@ -171,14 +173,16 @@ let classify ?(excuse_f9 = true) ~(strict_symbols : bool) (task : Sexp.t) (out :
              (public @ privates @ M.Asp.program_preds prog @ M.External.spec_predicates spec))
            (List.sort_uniq compare syms) in
        let ambiguous = List.exists (fun s -> List.mem (s @ Ops_tasks_sem.suffix_s) syms) clash_syms in
+       (* the output predicates in the vocabulary of the program side: those that occur in the task
+          (Model/External.v task_occurring_predicates; Proofs/C02Full.v occurring_outputs) *)
        let occurring = M.External.spec_predicates spec @ M.Asp.program_preds prog in
+       let outs = List.filter (fun q -> List.mem q occurring) outs in
        if t.et_proof_outline <> [] then Error "outline"
        else if not (M.Tightness.is_tight prog) then Error "non-tight"
        else if M.EvalAspTasks.program_has_arith prog
             || List.exists Ops_tasks_sem.formula_arith (spec_formulas @ ug_formulas) then Error "arithmetic"
        else if excuse_f9 && f9 then Error "F9"
        else if (not strict_symbols) && ambiguous then Error "F8c-ambiguous"
-       else if List.exists (fun q -> not (List.mem q occurring)) outs then Error "output-nowhere"
        else begin
          let pbs = (match out with L [ A "ok"; _; L (A "problems" :: pbs) ] -> List.map problem pbs | _ -> []) in
          let pbs = if strict_symbols then pbs else List.map (Ops_tasks_sem.unrename_problem clash_syms) pbs in
